@@ -148,3 +148,121 @@ def cancel_while_unwinding(ctx, rounds=1):
                                  f"instead of CancelledError (invocations {inv}, sleeps {sleeps}, events {events})", {"hang": desc})
                     elif len(inv) > 1 or sleeps or events:
                         ctx.viol("work-after-cancellation", f"[a{kind}.{meth}] cancelled while the timed-out attempt was unwinding, yet invocations {inv}, sleeps {sleeps}, events {events}", {"hang": desc})
+
+
+def twin_runs_with_a_hung_attempt(ctx, rounds=1):
+    """C12 with attempts that really hang past attempt_timeout_s: the sync entry points (worker thread per attempt) and their async
+    twins (asyncio.wait_for) must perform the same invocations and emit the same events.  Counts only, no timings: attempt 1 hangs
+    until the whole comparison is over, later attempts return at once."""
+    import asyncio
+
+    from redress import AsyncPolicy, AsyncRetry, AsyncRetryPolicy
+
+    release = threading.Event()
+
+    def sync_run(kind, meth):
+        inv, events, final = _run(kind, meth, release)
+        return inv, events, final
+
+    def async_run(kind, meth):
+        inv = []
+        events = []
+
+        async def op():
+            inv.append(len(inv) + 1)
+            if len(inv) == 1:
+                await asyncio.Event().wait()  # hangs far beyond attempt_timeout_s
+            return "ok"
+
+        async def sleeper(s):
+            return None
+
+        kw = dict(classifier=lambda e: ErrorClass.TRANSIENT, strategy=lambda c: 0.0, attempt_timeout_s=0.05, max_attempts=3, deadline_s=60.0)
+        pol = AsyncRetry(**kw) if kind == "retry" else AsyncPolicy(retry=AsyncRetry(**kw)) if kind == "policy" else AsyncRetryPolicy(**kw)
+        ckw = dict(on_metric=lambda ev, a, s, t: events.append((ev, a)), sleeper=sleeper)
+        loop = asyncio.new_event_loop()
+        try:
+            try:
+                r = loop.run_until_complete(asyncio.wait_for(pol.execute(op, **ckw) if meth == "execute" else pol.call(op, **ckw), 20.0))
+                final = ("return", r)
+            except BaseException as x:  # noqa: BLE001
+                final = ("raise", x)
+        finally:
+            loop.close()
+        return inv, events, final
+
+    def canon(final):
+        kind, v = final
+        if kind == "return" and hasattr(v, "ok"):
+            return ("ok" if v.ok else "failed", getattr(v.stop_reason, "value", None), v.attempts)
+        if kind == "return":
+            return ("ok", None, None)
+        return ("raised", type(v).__name__, None)
+
+    try:
+        for _ in range(rounds):
+            for kind in ("retry", "policy", "rp"):
+                for meth in ("call", "execute"):
+                    si, se, sf = sync_run(kind, meth)
+                    ai, ae, af = async_run(kind, meth)
+                    ctx.inc("hung_attempt_twin_comparisons")
+                    cs, ca = canon(sf), canon(af)
+                    if meth == "call":
+                        cs, ca = cs[:2], ca[:2]
+                    if si != ai or se != ae or cs != ca:
+                        desc = {"entry": f"{kind}.{meth}", "sync": {"invocations": si, "events": se, "final": repr(sf[1])[:160]}, "async": {"invocations": ai, "events": ae, "final": repr(af[1])[:160]}}
+                        ctx.viol("twins-differ-when-an-attempt-hangs", f"[{kind}.{meth} vs a{kind}.{meth}] attempt 1 hangs past attempt_timeout_s: sync invocations {si} events {se} final {cs}; async invocations {ai} events {ae} final {ca}", {"hang": desc})
+    finally:
+        release.set()
+
+
+def entry_behind_an_abandoned_attempt(ctx):
+    """C02 with a really hanging attempt (sync runner, real time, generous margins): attempt 1 times out after 1.5 s of a 2.5 s
+    deadline and keeps running; it is let go at 2.7 s, while attempt 2's own timeout has not expired yet.  The library may not
+    have begun an attempt whose operation is entered after the deadline.  Decided causally, not by a stopwatch: a violation needs
+    the operation of attempt 2 to be entered after the deadline AND only after the abandoned operation finished (i.e. it was
+    waiting for it); a late entry while attempt 1 is still hanging is a stalled machine and counts as inconclusive."""
+    t0 = [None]
+    entered = {}
+    finished = {}
+    release = threading.Event()
+    real = env.real_monotonic
+
+    def op():
+        k = len(entered) + 1
+        entered[k] = real() - t0[0]
+        if k == 1:
+            release.wait(20.0)
+            finished[1] = real() - t0[0]
+            return "late"
+        return "ok"
+
+    def releaser():
+        env._REAL["sleep"](2.7)
+        release.set()
+
+    events = []
+    pol = Retry(classifier=lambda e: ErrorClass.TRANSIENT, strategy=lambda c: 0.0, attempt_timeout_s=1.5, max_attempts=2, deadline_s=2.5)
+    th = threading.Thread(target=releaser, daemon=True)
+    t0[0] = real()
+    th.start()
+    try:
+        pol.call(op, on_metric=lambda ev, a, s, t: events.append((ev, a, round(real() - t0[0], 3))), sleeper=lambda s: None)
+        final = "returned"
+    except BaseException as x:  # noqa: BLE001
+        final = type(x).__name__
+    finally:
+        release.set()
+    th.join(5.0)
+    env._REAL["sleep"](0.05)
+    ctx.inc("runs")
+    ctx.inc("hung_attempt_deadline_runs")
+    desc = {"entered_at": entered, "abandoned_attempt_finished_at": finished, "events": events, "final": final, "deadline_s": 2.5, "attempt_timeout_s": 1.5}
+    if 2 in entered and entered[2] > 2.5:
+        if 1 in finished and entered[2] >= finished[1]:
+            ctx.viol("attempt-entered-after-deadline-behind-an-abandoned-attempt", f"the operation of attempt 2 was entered {entered[2]:.3f}s into the call (deadline_s=2.5), right after the abandoned attempt 1 finished at {finished[1]:.3f}s; "
+                     f"events {events}, call {final}", {"hang": desc})
+        else:
+            ctx.inconclusive_because(f"attempt 2 entered at {entered[2]:.3f}s while attempt 1 was still hanging: the machine stalled for over a second")
+    elif 2 in entered:
+        ctx.inc("second_attempt_entered_while_first_still_hanging")
